@@ -282,6 +282,14 @@ let clauses_group h (impl : string) : (string * bool) list =
     [ ("no_panic", true);
       ("group_spec", check_groups ops nn (groups "groups") && ((not textdiff) || check_groups ops nn (groups "hunks"))) ]
 
+(* Myers and the crate's LCS algorithm are both minimal (c03_myers_minimal, c03_lcs_minimal): on the same input
+   their raw scripts cost the same *)
+let clauses_costs _h (impl : string) : (string * bool) list =
+  if impl = "PANIC" || impl = "TIMEOUT" || impl = "ABORT" then [ ("no_panic", false) ]
+  else
+    let ih = parse_impl impl in
+    [ ("no_panic", true); ("minimal_agree", get ih "M" = get ih "L") ]
+
 let clauses (line : string) (impl : string) : (string * bool) list =
   let comp, h = parse_kv line in
   match comp with
@@ -290,6 +298,7 @@ let clauses (line : string) (impl : string) : (string * bool) list =
   | "adapter" -> clauses_adapter h impl
   | "iter" -> clauses_iter h impl
   | "group" -> clauses_group h impl
+  | "costs" -> clauses_costs h impl
   | _ -> Text_checks.clauses comp h impl
 
 let main (cases : string) (impl : string) : unit =
